@@ -17,7 +17,7 @@ from decimal import Decimal
 import core
 from core import Result
 import props.c14 as c14
-from props.c14 import bits, unbits, canon, call, same, nextafter, load_real, edge_values, grid, V, ref_psat, ref_b23p, T0
+from props.c14 import bits, unbits, canon, call, same, nextafter, load_real, edge_values, grid, V, ref_psat, ref_b23p, T0, need, NoValue
 
 sys.path.insert(0, str(core.VERIF / 'harness' / 'translate'))
 import thermo  # noqa: E402
@@ -114,9 +114,7 @@ def ref_in_range(fn, args):
 
 def o_liquid(I, T, c):
     t, p = c['t'], c['p']
-    a, b = I.cowat(t, p), T.cowat(t, p)
-    if a is None or b[0] is None:
-        return [V('liquid-none', 'cowat(%r, %r): IAPWS-97 %r, IFC-67 %r' % (t, p, a, b), c)]
+    a, b = need(I, 'cowat', t, p), need(T, 'cowat', t, p)
     if not (abs(a[0] - b[0]) <= TOL_LIQ_D * a[0] and abs(a[1] - b[1]) <= TOL_LIQ_U):
         return [V('liquid-disagree', 'liquid water at t=%r p=%r: IAPWS-97 (d, u) = (%r, %r), IFC-67 (%r, %r)' % (
             t, p, float(a[0]), float(a[1]), b[0], b[1]), c)]
@@ -125,9 +123,7 @@ def o_liquid(I, T, c):
 
 def o_steam(I, T, c):
     t, p = c['t'], c['p']
-    a, b = I.supst(t, p), T.supst(t, p)
-    if a is None or b[0] is None:
-        return [V('steam-none', 'supst(%r, %r): IAPWS-97 %r, IFC-67 %r' % (t, p, a, b), c)]
+    a, b = need(I, 'supst', t, p), need(T, 'supst', t, p)
     if not (abs(a[0] - b[0]) <= TOL_STM_D * a[0] and abs(a[1] - b[1]) <= TOL_STM_U):
         return [V('steam-disagree', 'steam at t=%r p=%r: IAPWS-97 (d, u) = (%r, %r), IFC-67 (%r, %r)' % (
             t, p, float(a[0]), float(a[1]), b[0], b[1]), c)]
@@ -136,9 +132,7 @@ def o_steam(I, T, c):
 
 def o_sat(I, T, c):
     t = c['t']
-    a, b = I.sat(t), T.sat(t)
-    if a is None or b is None:
-        return [V('sat-none', 'sat(%r): IAPWS-97 %r, IFC-67 %r' % (t, a, b), c)]
+    a, b = need(I, 'sat', t), need(T, 'sat', t)
     if not abs(a - b) <= TOL_SAT * a:
         return [V('sat-disagree', 'saturation pressure at t=%r: IAPWS-97 %r, IFC-67 %r' % (t, float(a), b), c)]
     return []
@@ -160,8 +154,8 @@ def o_tsat(I, T, c):
     t = c['t']
     with warnings.catch_warnings():
         warnings.simplefilter('ignore')
+        ps = need(T, 'sat', t)
         try:
-            ps = T.sat(t)
             tt = T.tsat(ps, c.get('bounds', False))
         except Exception as e:
             return [V(raise_key(T, 'tsat', (ps,), e), 'tsat(sat(%r)) raises %s: %s' % (t, type(e).__name__, str(e)[:80]), c)]
@@ -170,19 +164,19 @@ def o_tsat(I, T, c):
     return []
 
 
-def _vh(f, t, p):
-    d, u = f(t, p)
+def _vh(T, fn, t, p):
+    d, u = need(T, fn, t, p)
     v = 1 / d
     return v, u + p * v
 
 
 def o_potential_fd(I, T, c):
-    f = T.cowat if c['phase'] == 'liquid' else T.supst
+    f = 'cowat' if c['phase'] == 'liquid' else 'supst'
     t, p = c['t'], c['p']
     dp, dt = max(p * 1e-4, 1e-3), 0.01
-    v, h = _vh(f, t, p)
-    hp = (_vh(f, t, p + dp)[1] - _vh(f, t, p - dp)[1]) / (2 * dp)
-    vT = (_vh(f, t + dt, p)[0] - _vh(f, t - dt, p)[0]) / (2 * dt)
+    v, h = _vh(T, f, t, p)
+    hp = (_vh(T, f, t, p + dp)[1] - _vh(T, f, t, p - dp)[1]) / (2 * dp)
+    vT = (_vh(T, f, t + dt, p)[0] - _vh(T, f, t - dt, p)[0]) / (2 * dt)
     Tk = t + 273.15
     res = abs(hp - (v - Tk * vT)) / (abs(v) + abs(Tk * vT))
     if not res <= TOL_ID_FD:
@@ -200,7 +194,7 @@ def o_potential_tree(I, T, CD, c):
 
         def vh(t, p):
             rr = CD(fn, t, p, False)
-            if rr[0] != 'pair': raise ArithmeticError('no value')
+            if rr[0] != 'pair': raise NoValue(fn, (float(t), float(p)), 'has no value (translated tree)')
             v = 1 / rr[1]
             return v, rr[2] + p * v, rr
         dp, dt = p * Decimal('1e-20'), Decimal('1e-18')
@@ -212,7 +206,7 @@ def o_potential_tree(I, T, CD, c):
         if not res <= Decimal(TOL_ID_DEC):
             out.append(V('potential-identity-exact:' + c['phase'], 'IFC-67 %s at t=%r p=%r: volume and enthalpy are not derived from one '
                          'potential (relative residual %.3g in 70-digit arithmetic)' % (c['phase'], c['t'], c['p'], res), c))
-        real = (T.cowat if fn == 'cowat' else T.supst)(c['t'], c['p'])
+        real = need(T, fn, c['t'], c['p'])
         e1 = abs(Decimal(real[0]) - rr[1]) / abs(rr[1])
         e2 = abs(Decimal(real[1]) - rr[2]) / (abs(rr[2]) + Decimal(461.51) * Tk)
         if not (e1 <= Decimal(TOL_TREE) and e2 <= Decimal(TOL_TREE)):
@@ -263,7 +257,10 @@ def o_regions(I, T, c):
     elif t <= 590.0:
         a, b = sorted([ref_b23p(t), ref_b23p67(t)])
         if a * (1 - 1e-6) <= p <= b * (1 + 1e-6): return 'band'
-    r1, r2 = I.region(t, p), T.region(t, p)
+    try:
+        r1, r2 = I.region(t, p), T.region(t, p)
+    except TypeError as e:
+        raise NoValue('region', (t, p), 'raises TypeError')
     if r1 != r2:
         return [V('regions-disagree:%s-%s' % (r1, r2), 'region(%r, %r): IAPWS-97 %r, IFC-67 %r' % (t, p, r1, r2), c)]
     return []
@@ -302,10 +299,19 @@ CLAUSES = {'liquid': o_liquid, 'steam': o_steam, 'sat': o_sat, 'tsat': o_tsat, '
 PINNED = {'cowat': [(20., 1e5), (200., 50e5), (300., 100e5)], 'supst': [(200., 1e5), (300., 20e5), (450., 100e5)]}
 
 
+def plow(T):
+    """tsat's lower limit as the real code computes it (the reference value if the real sat gives none)"""
+    try:
+        v = T.sat(0.01)
+        return float(v) if v is not None else ref_psat67(0.01)
+    except Exception:
+        return ref_psat67(0.01)
+
+
 def gen_correspondence(T, rng, n):
     out = []
     tedges = [0.01, 350.0, float(T.Tc1_C), 500.0, 590.0, 800.0, -273.15, 0.0]
-    pedges = [0.0, 1e8, float(T.Pc1), float(T.sat(0.01))]
+    pedges = [0.0, 1e8, float(T.Pc1), plow(T)]
     tvals = [v for e in tedges for v in edge_values(e)]
     pvals = [v for e in pedges for v in edge_values(e)]
     for fn, lst in PINNED.items():
@@ -323,11 +329,11 @@ def gen_correspondence(T, rng, n):
                 out += [('cowat', (t, p, b)), ('supst', (t, p, b))]
         out += [('region', (t, p)) for t in (20., 360., 400., 700.)]
     for t in grid(0.01, 374.15, 40):
-        ps = float(T.sat(t))
+        ps = ref_psat67(t)
         for p in edge_values(ps) + [ps * (1 - 1e-6), ps * (1 + 1e-6)]:
             out += [('cowat', (t, p, True)), ('supst', (t, p, True)), ('region', (t, p))]
     for t in grid(350., 590., 30):
-        pb = float(T.b23p(t))
+        pb = ref_b23p67(t)
         for p in edge_values(pb) + [pb * (1 - 1e-6), pb * (1 + 1e-6)]:
             out += [('supst', (t, p, True)), ('region', (t, p))]
     for _ in range(n):
@@ -410,33 +416,47 @@ def run(ctx, scale=1.0, oracle_only=False):
             f2 = res.facet('steam_fraction_bits')
             with warnings.catch_warnings():
                 warnings.simplefilter('ignore')
-                realf, tss = [], []
+                usable = []
                 for h, p1, p2 in sreq:
-                    realf.append(call(T.separated_steam_fraction, h, p1, p2))
-                    tss.append((float(T.tsat(p1)), None if p2 is None else float(T.tsat(p2))))
+                    rf = call(T.separated_steam_fraction, h, p1, p2)
+                    try:
+                        ts = (float(T.tsat(p1)), None if p2 is None else float(T.tsat(p2)))
+                    except Exception:
+                        ts = None
+                    if ts is None or rf.startswith('exc'):
+                        res.count('steam_fraction:real-code-raises (left to the oracle)')
+                        continue
+                    usable.append(((h, p1, p2), rf, ts))
             l1 = []
-            for (h, p1, p2), (t1, t2) in zip(sreq, tss):
+            for (h, p1, p2), rf, (t1, t2) in usable:
                 l1 += ['cowat %s %s 0' % (bits(t1), bits(p1)), 'supst %s %s 0' % (bits(t1), bits(p1))]
                 if p2 is not None:
                     l1 += ['cowat %s %s 0' % (bits(t2), bits(p2)), 'supst %s %s 0' % (bits(t2), bits(p2))]
-            o1 = core.run_driver('drv_c15', l1)
-            l2, k = [], 0
-            for (h, p1, p2) in sreq:
-                for p in ([p1, p1] if p2 is None else [p1, p1, p2, p2]):
-                    w = o1[k].split(); k += 1
-                    if w[0] != 'pair': raise RuntimeError('model cowat/supst gives no value at a separator state: ' + o1[k - 1])
+            o1 = core.run_driver('drv_c15', l1) if l1 else []
+            l2, k, good = [], 0, []
+            for (h, p1, p2), rf, ts in usable:
+                ps_ = [p1, p1] if p2 is None else [p1, p1, p2, p2]
+                ws = [o1[k + i].split() for i in range(len(ps_))]
+                k += len(ps_)
+                if any(w[0] != 'pair' for w in ws):
+                    # the real code produced a fraction but the model has no density/energy there
+                    f2['cases'] += 1; f2['disagreements'] += 1
+                    res.disagreements.append(dict(facet='steam_fraction_bits', case={'h': h, 'p1': p1, 'p2': p2}, model='no value', impl=rf))
+                    continue
+                good.append(((h, p1, p2), rf, len(ps_)))
+                for w, p in zip(ws, ps_):
                     l2.append('enth %s %s %s' % (w[1], w[2], bits(p)))
-            o2 = core.run_driver('drv_c15', l2)
+            o2 = core.run_driver('drv_c15', l2) if l2 else []
             l3, k = [], 0
-            for (h, p1, p2) in sreq:
+            for (h, p1, p2), rf, n_ in good:
+                e = [o2[k + i].split()[1] for i in range(n_)]
+                k += n_
                 if p2 is None:
-                    e = [o2[k].split()[1], o2[k + 1].split()[1]]; k += 2
                     l3.append('ssf %s 1 %s %s %s %s' % (bits(h), e[0], e[1], bits(0.0), bits(0.0)))
                 else:
-                    e = [o2[k + i].split()[1] for i in range(4)]; k += 4
                     l3.append('ssf %s 0 %s %s %s %s' % (bits(h), e[0], e[1], e[2], e[3]))
-            o3 = core.run_driver('drv_c15', l3)
-            for (h, p1, p2), a, b in zip(sreq, realf, o3):
+            o3 = core.run_driver('drv_c15', l3) if l3 else []
+            for ((h, p1, p2), a, n_), b in zip(good, o3):
                 f2['cases'] += 1
                 res.evaluations += 1
                 res.count('steam_fraction:' + ('one-stage' if p2 is None else 'two-stage') + (':clamped' if a in ('num ' + bits(0.0), 'num ' + bits(1.0)) else ':interior'))
@@ -448,8 +468,8 @@ def run(ctx, scale=1.0, oracle_only=False):
 
 
 def steam_pmax(I, T, t):
-    if t <= 350.: m = min(float(I.sat(t)), float(T.sat(t))) * (1 - 1e-9)
-    elif t <= 590.: m = min(float(I.b23p(t)), float(T.b23p(t))) * (1 - 1e-9)
+    if t <= 350.: m = min(ref_psat(t), ref_psat67(t)) * (1 - 1e-9)
+    elif t <= 590.: m = min(ref_b23p(t), ref_b23p67(t)) * (1 - 1e-9)
     else: m = 100e6
     return min(m, 100e6)
 
@@ -459,7 +479,11 @@ def oracle(ctx, I, T, res, rng, scale=1.0):
 
     def apply(name, c, fn=None):
         c = dict(c, clause=name)
-        r = (fn or (lambda I_, T_, cc: CLAUSES[name](I_, T_, cc)))(I, T, c)
+        try:
+            r = (fn or (lambda I_, T_, cc: CLAUSES[name](I_, T_, cc)))(I, T, c)
+        except NoValue as e:
+            r = [V('no-value:%s:%s' % (name, e.fn), '%s %s at a state where clause %s needs its value (%s)' % (
+                '%s%r' % (e.fn, e.args_), e.why, name, {k: v for k, v in c.items() if k != 'clause'}), c)]
         res.evaluations += 1
         res.count('oracle:' + name)
         if r == 'band':
@@ -475,7 +499,7 @@ def oracle(ctx, I, T, res, rng, scale=1.0):
     # liquid and steam states on the common range
     for k in range(n(1500, 40000)):
         t = rng.choice([rng.uniform(0.01, 350.), rng.uniform(0.01, 350.), rng.uniform(300., 350.), 350., 0.01])
-        ps = max(float(I.sat(t)), float(T.sat(t))) * (1 + 1e-9)
+        ps = max(ref_psat(t), ref_psat67(t)) * (1 + 1e-9)
         p = min(rng.choice([rng.uniform(ps, 1e8), rng.uniform(ps, 1e8), ps, 1e8, ps * (1 + 10 ** rng.uniform(-6, 0))]), 1e8)
         c = {'t': t, 'p': p}
         apply('liquid', c)
@@ -518,7 +542,7 @@ def oracle(ctx, I, T, res, rng, scale=1.0):
             for f in (1 - 1e-3, 1 - 1e-6, 1 - 3e-9, 1 + 3e-9, 1 + 1e-6, 1 + 1e-3):
                 cases.append(('supst', (t, pb * f)))
     plo = ref_psat67(0.01)
-    for p in edge_values(PC1) + edge_values(float(T.sat(0.01))) + [plo * f for f in (0.5, 1 - 1e-3, 1 - 1e-6, 1 + 1e-6, 1 + 1e-3, 2)] + [0.0, -1.0, 1.0, 2 * PC1] + \
+    for p in edge_values(PC1) + edge_values(plow(T)) + [plo * f for f in (0.5, 1 - 1e-3, 1 - 1e-6, 1 + 1e-6, 1 + 1e-3, 2)] + [0.0, -1.0, 1.0, 2 * PC1] + \
             [10 ** rng.uniform(1, 7.5) for _ in range(n(60, 1500))]:
         cases.append(('tsat', (p,)))
     for fn, args in cases:
@@ -577,11 +601,14 @@ def replay(ctx, payload):
     name = c.get('clause')
     if not name:
         return False, 'replay file names what no longer checks: %s' % payload.get('broken')
-    if name == 'potential_tree':
-        _, MT = thermo.modules(core.REPO)
-        r = o_potential_tree(I, T, thermo.Compiled(MT, thermo.DecimalBackend()), c)
-    else:
-        r = CLAUSES[name](I, T, c)
+    try:
+        if name == 'potential_tree':
+            _, MT = thermo.modules(core.REPO)
+            r = o_potential_tree(I, T, thermo.Compiled(MT, thermo.DecimalBackend()), c)
+        else:
+            r = CLAUSES[name](I, T, c)
+    except NoValue as e:
+        r = [V('no-value', '%s%r %s' % (e.fn, e.args_, e.why), c)]
     if r == 'band': r = []
     txt = '; '.join(v['what'] for v in r) or 'clause %s holds at %s' % (name, {k: v for k, v in c.items() if k != 'clause'})
     return bool(r), txt
